@@ -129,7 +129,11 @@ func (s *Session) startTlsIfSupported(o *Config) {
 	}
 
 	if _, ok := s.Features.DoesStartTLS(); ok {
-		fmt.Fprintf(s.transport, "<starttls xmlns='urn:ietf:params:xml:ns:xmpp-tls'/>")
+		if _, err := fmt.Fprintf(s.transport, "<starttls xmlns='urn:ietf:params:xml:ns:xmpp-tls'/>"); err != nil {
+			// The request did not go out: there is no answer to wait for
+			s.err = errors.New("cannot send starttls request: " + err.Error())
+			return
+		}
 
 		var k stanza.TLSProceed
 		if s.err = s.transport.GetDecoder().DecodeElement(&k, nil); s.err != nil {
